@@ -541,4 +541,59 @@ example : (⟨[⟨10, 20⟩, ⟨30, 40⟩], 0⟩ : CharPartition).intervalCover 
   · intro h
     exact h 30 ⟨by decide, by decide⟩ ⟨⟨30, 40⟩, by simp, by decide, by decide⟩
 
+/-! ### the iterators `class_ids()` / `picks()`, element by element
+
+`ClassIdIterator::next` and `PickIterator::next` compute their answer from a counter; the model's
+lists `classIds` / `picks` hold exactly these answers at every index, so `nth(j)` after `k` calls of
+`next` (and with it `skip`, `step_by`, ...) is element `k + j` (driver ops `class_ids_nth`,
+`picks_nth`). -/
+
+/-- `ClassIdIterator::next` with the counter at `i` (src/character_sets.rs:1016-1026) -/
+def classIdAt (p : CharPartition) (i : Nat) : Option ClassId :=
+  if i < p.len then some (.interval i)
+  else if i = p.len ∧ p.emptyComplement = false then some .complement
+  else none
+
+/-- `PickIterator::next` with the counter at `i` -/
+def pickAt (p : CharPartition) (i : Nat) : Option Nat :=
+  if i < p.len then p.pick i
+  else if i = p.len ∧ p.emptyComplement = false then some p.pickComplement
+  else none
+
+theorem class_ids_get (p : CharPartition) (i : Nat) : p.classIds[i]? = classIdAt p i := by
+  unfold classIds classIdAt
+  by_cases h : i < p.len
+  · simp [List.getElem?_append_left, h]
+  · have h' : p.len ≤ i := Nat.le_of_not_lt h
+    rw [List.getElem?_append_right (by simpa using h')]
+    simp only [List.length_map, List.length_range, h, if_false]
+    cases hc : p.emptyComplement
+    · by_cases he : i = p.len
+      · simp [he]
+      · have : i - p.len ≠ 0 := by omega
+        simp [he]
+        omega
+    · simp
+
+theorem picks_get (p : CharPartition) (i : Nat) : p.picks[i]? = pickAt p i := by
+  unfold picks pickAt pick len
+  by_cases h : i < p.list.length
+  · simp [List.getElem?_append_left, h]
+  · have h' : p.list.length ≤ i := Nat.le_of_not_lt h
+    rw [List.getElem?_append_right (by simpa using h')]
+    simp only [List.length_map, h, if_false]
+    cases hc : p.emptyComplement
+    · by_cases he : i = p.list.length
+      · simp [he, pickComplement]
+      · have : i - p.list.length ≠ 0 := by omega
+        simp [he]
+        omega
+    · simp
+
+/-- the enumeration stops after the complement (or after the last interval when the complement is empty) -/
+example : classIdAt ⟨[⟨10, 20⟩, ⟨30, 40⟩], 0⟩ 2 = some .complement ∧
+    classIdAt ⟨[⟨10, 20⟩, ⟨30, 40⟩], 0⟩ 3 = none ∧
+    classIdAt ⟨[⟨0, MAX_CHAR⟩], MAX_CHAR + 1⟩ 1 = none ∧
+    pickAt ⟨[⟨10, 20⟩, ⟨30, 40⟩], 0⟩ 1 = some 30 := by decide
+
 end Smt.C11
